@@ -44,8 +44,14 @@ def register(K):
         s = eng.spec_value("i.stack._stack", st, {"i": interp})
         b = eng.spec_value("i.module_body._list", st, {"i": interp})
         m = eng.spec_value("i.memory", st, {"i": interp})
-        memo_ok = eng.rules.forall_pred_array("MEMO_NOMARK", lambda x: z3.Not(mark_term(x)), z3.ArraySort(Val, Val))
-        return vbool(z3.And(PRIVATE(s.t), PRIVATE(b.t), s.t != b.t, memo_ok(st.read("dict.map", m.t))))
+        h0_ = z3.Const("H0.cls", z3.ArraySort(Int, Int))
+        memo_ok = eng.rules.forall_pred_array("MEMO_NOMARK", lambda x: z3.And(z3.Not(mark_term(x)), Val.is_R(x),
+                                                                           z3.Select(h0_, Val.r(x)) != clsid("type")),
+                                              z3.ArraySort(Val, Val))
+        # stack slots are objects (AST nodes or marks), never class objects: `isinstance(slot, type)` is false
+        h0 = z3.Const("H0.cls", z3.ArraySort(Int, Int))
+        slots = eng.rules.forall_pred("SLOTS", lambda x: z3.And(Val.is_R(x), z3.Select(h0, Val.r(x)) != clsid("type")))
+        return vbool(z3.And(PRIVATE(s.t), PRIVATE(b.t), s.t != b.t, memo_ok(st.read("dict.map", m.t)), slots(st.items(s.t))))
 
     @K.spec("is_mark")
     def is_mark(eng, st, x):
@@ -102,12 +108,13 @@ def register(K):
     K.contract("fickle.ModuleBody.__iter__", params="self: fickle.ModuleBody", returns="seq", pure=True, ensures=["result == self._list"])
 
     # ---- Interpreter -----------------------------------------------------------------------------------------------------
-    K.contract("fickle.Interpreter.new_variable", params="self: fickle.Interpreter, value: val, name: val = None", returns="str",
+    K.contract("fickle.Interpreter.new_variable", params="self: fickle.Interpreter, value: val, name: str? = None", returns="str",
                may_raise=["ValueError"],
                modifies=["self._var_counter", "self.module_body._list[]"],
                ensures=["len(self.module_body._list) == len(old(self.module_body._list)) + 1",
                         "self.module_body._list[:-1] == old(self.module_body._list)",
                         "is_assign(self.module_body._list[-1], result, value)",
+                        "assign_is_fresh(self.module_body._list[-1])",
                         "implies(name is None, result == var_name(old(self._var_counter)) and self._var_counter == old(self._var_counter) + 1)",
                         "implies(name is not None, result == name and self._var_counter == old(self._var_counter))"],
                ensures_raise={"ValueError": ["self.module_body._list == old(self.module_body._list)"]})
@@ -116,6 +123,15 @@ def register(K):
     @K.spec("var_name")
     def var_name(eng, st, n):
         return V("str", z3.Concat(z3.StringVal("_var"), eng.rules.INT2STR(eng.as_int(n))))
+
+    @K.spec("assign_is_fresh")
+    def assign_is_fresh(eng, st, stmt):
+        """the Assign node, its targets list and its target Name were allocated by this call (nothing older aliases them)"""
+        base = eng.old_state.alloc_ptr() if eng.old_state is not None else st.alloc_ptr()
+        r = eng.as_ref(stmt, st)
+        targets = st.read("ast.targets", r, Val)
+        tl = st.items(Val.r(targets))
+        return vbool(z3.And(r >= base, Val.r(targets) >= base, Val.r(tl[0]) >= base))
 
     @K.spec("is_assign")
     def is_assign(eng, st, stmt, name, value):
